@@ -67,6 +67,20 @@ def oracle(H, tmp):
             new = H3.add_edge([0])
             if H3.num_edges != H.num_edges + 1:
                 return "an automatic id collides with an id read from a HIF file"
+    # a cast requested on reading applies to every id of the file - nodes in edges, isolated nodes, edges, empty edges alike
+    for cast in ((str, float) if typ is int else (str,)):
+        if len({cast(x) for x in s["nodes"]}) != len(s["nodes"]) or len({cast(x) for x in s["edges"]}) != len(s["edges"]):
+            continue
+        m = lambda ms: frozenset(cast(x) for x in ms)   # noqa: E731
+        want = dict(kind=kind, nodes={cast(n) for n in s["nodes"]}, nattr={cast(n): a for n, a in s["nattr"].items()},
+                    edges={cast(e): ((m(v[0]), m(v[1])) if di else m(v)) for e, v in s["edges"].items()},
+                    eattr={cast(e): a for e, a in s["eattr"].items()}, net=s["net"])
+        Hc = xgi.read_hif(p, nodetype=cast, edgetype=cast)
+        if snap(Hc) != want:
+            return f"write_hif/read_hif(nodetype={cast.__name__}, edgetype={cast.__name__}) is not the written {kind} under that cast"
+        bad = [x for x in list(Hc.nodes) + list(Hc.edges) if type(x) is not cast]
+        if bad:
+            return f"read_hif(nodetype={cast.__name__}, edgetype={cast.__name__}) leaves the ids {bad[:4]} uncast"
     for coll in ([H, H], {"x": H, "y": H}):
         d = os.path.join(tmp, "coll"); os.makedirs(d, exist_ok=True)
         try:
